@@ -14,6 +14,13 @@ Derivatives are stated along ARBITRARY differentiable parameter curves `r : ℝ 
 (`RBM.CurveAt`): the loss composed with the curve has derivative `G.pair dr = Σ_k G_k · dr_k`, where `G` is the
 model's gradient record. Taking coordinate lines gives every partial derivative; linearity in `dr` gives the
 total derivative. Model: QV.Model.Grads (executed against the code by the C03 correspondence).
+
+Audit round (second half of the file): the losses differentiated here ARE the Born-rule negative log-likelihood of the
+dense Kronecker rotation of C04 (`C03_nll_is_born_complex`, `C03_nll_is_born_density`, normalisation
+`C03_born_complex_normalised`, `C03_born_density_normalised`); `p̃ + ε > 0` follows from the guard and `ε > 0`
+(`C03_exact_gradient_density_eps_pos`); the pairing is the dot product of the flattened records in `parameters()` order
+(`C03_layout`, `C03_layout_prbm`, `C03_exact_gradient_*_flat`); batch of one (`C03_single_sample*`); `bases=None` / all-Z rows
+(`C03_bases_none*`); mixed-state permutation invariance; the unused default branch of `pi_grad` (`C03_pi_grad_branches_*`).
 -/
 import Mathlib.Analysis.SpecialFunctions.Log.Deriv
 import QV.Lemmas.Deriv
@@ -22,6 +29,9 @@ import QV.Lemmas.Hilbert
 import QV.Lemmas.CplxGrad
 import QV.Lemmas.Grouping
 import QV.Lemmas.DMGrad
+import QV.Props.C01
+import QV.Props.C02
+import QV.Props.C04
 
 namespace QV.Props
 open QV Finset Grads
@@ -145,7 +155,8 @@ theorem cplxUpsi_allZ (am ph : RBM ℝ n h) (dict : Char → M2 ℝ) (smp : Samp
   · simp
 
 /-- per-sample loss `−log p̃_β(σ)` with `p̃_β(σ) = |Σ_τ Ut_τ ψ(τ)|²` the unnormalised Born probability of outcome σ in
-basis β (by `C04_inner_prod`, entry σ of the dense rotation applied to ψ). -/
+basis β (entry σ of the dense Kronecker rotation applied to ψ: `C03_upsi_is_dense_amplitude`, `C03_loss_is_born_complex`;
+the dataset loss is the Born-rule NLL: `C03_nll_is_born_complex`). -/
 noncomputable def sampleLossCplx (am ph : RBM ℝ n h) (dict : Char → M2 ℝ) (smp : Sample n) : ℝ :=
   -Real.log (Complex.normSq (toC (cplxUpsi am ph dict smp)))
 
@@ -234,7 +245,9 @@ theorem C03_upsi_is_rotated_amplitude (am ph : RBM ℝ n h) (dict : Char → M2 
 
 /-- per-sample loss of the mixed state: `E_λ(σ)` for a reference-basis row (fast path, no regulariser) and
 `−log(p̃_β(σ) + ε)` for a rotated row, `p̃_β(σ) = Σ_{τ,τ'} Re[U_τ conj(U_τ') ρ(τ,τ')]` the unnormalised Born probability
-of outcome σ in basis β (the model of `rotate_rho_probs`, C04_rho_probs). -/
+of outcome σ in basis β (the model of `rotate_rho_probs`: `C03_urhou_is_rotated_prob`; the diagonal of the dense `K ρ Kᴴ`:
+`C03_urhou_is_born`; the two branches are one Born-rule loss: `C03_loss_allZ_density`, `C03_loss_is_born_density`;
+dataset level: `C03_nll_is_born_density`). -/
 noncomputable def sampleLossDM (am ph : PRBM ℝ n h a) (dict : Char → M2 ℝ) (eps : ℝ) (smp : Sample n) : ℝ :=
   if smp.allZ then am.effEnergy smp.vis else -Real.log (dmUrhoU am ph dict smp + eps)
 
@@ -346,5 +359,501 @@ theorem C03_batch_is_sum_density (am ph d : PRBM ℝ n h a) (dict : Char → M2 
     ∧ (positivePhaseDM am ph dict eps D).2.pair d = (D.map (fun s => (dmGrad1 am ph dict eps s).2.pair d)).sum / D.length := by
   simp only [positivePhaseDM, PRBM.pair_sdiv, transc_ofNat, (pair_gradientDM _ _ _ _ _ _).1,
     (pair_gradientDM _ _ _ _ _ _).2, and_self]
+
+
+/-! ## Audit round: Born rule, layout, call forms (C03-1, C03-3, C03-5, C03-8) -/
+
+open Matrix
+/-! ### C03-1: the loss of the gradient theorems IS the Born-rule loss (dense Kronecker rotation, C04) -/
+
+/-- the fast paths test the LETTER `Z`; if the dictionary maps `Z` to the identity, every non-rotated site of a sample
+carries the identity -/
+theorem hZ_of_dictZ (dict : Char → M2 ℝ) (smp : Sample n) (hZ : m2c (dict 'Z') = 1) :
+    ∀ j, smp.rot j = false → m2c (dict (smp.letter j)) = 1 := by
+  intro j hj
+  have : smp.letter j = 'Z' := by simpa [Sample.rot] using hj
+  rw [this]; exact hZ
+
+/-- SPEC (Born rule, pure state): unnormalised probability of outcome `σ` when site `j` is measured in the basis whose
+unitary is `us j`: `|(K ψ)_σ|²` with `K = ⊗_j us j` the DENSE tensor-product operator of C04. -/
+noncomputable def bornPsi (us : Fin n → M2 ℝ) (ψ : (Fin n → Bool) → ℂ) (σ : Fin n → Bool) : ℝ :=
+  Complex.normSq ((denseK us).mulVec ψ σ)
+
+/-- the complex state as a vector over bit-strings -/
+noncomputable def psiOf (am ph : RBM ℝ n h) : (Fin n → Bool) → ℂ := fun τ => toC (Wave.psiCplx am ph (visOf τ))
+
+/-- the per-site unitaries of a sample's basis string -/
+def usOf (dict : Char → M2 ℝ) (smp : Sample n) : Fin n → M2 ℝ := fun j => dict (smp.letter j)
+
+/-- **C03.4a** the rotated amplitude used by the gradient code is what `rotate_psi_inner_prod` computes BY ENUMERATION of the
+expanded states (the C04 model the driver executes) … -/
+theorem C03_upsi_as_coded (am ph : RBM ℝ n h) (dict : Char → M2 ℝ) (smp : Sample n) :
+    cplxUpsi am ph dict smp
+      = rotatePsiInnerProdE n (usOf dict smp) smp.rot (fun τ => Wave.psiCplx am ph (visOf τ)) smp.σ := by
+  rw [rotatePsiInnerProdE_eq]; rfl
+
+/-- **C03.4b** … and it is entry `σ` of the dense Kronecker rotation applied to `ψ` (`C04_inner_prod_dense`). -/
+theorem C03_upsi_is_dense_amplitude (am ph : RBM ℝ n h) (dict : Char → M2 ℝ) (smp : Sample n)
+    (hZ : m2c (dict 'Z') = 1) :
+    toC (cplxUpsi am ph dict smp) = (denseK (usOf dict smp)).mulVec (psiOf am ph) smp.σ := by
+  rw [C03_upsi_is_rotated_amplitude]
+  exact C04_inner_prod_dense _ _ (fun τ => Wave.psiCplx am ph (visOf τ)) _ (hZ_of_dictZ dict smp hZ)
+
+/-- **C03.4c** the per-sample loss of `C03_sample_gradient_complex` is `−log` of the Born probability of the sample's
+outcome in the sample's own basis; where that probability is non-zero, `exp(−loss)` is the probability itself. -/
+theorem C03_loss_is_born_complex (am ph : RBM ℝ n h) (dict : Char → M2 ℝ) (smp : Sample n)
+    (hZ : m2c (dict 'Z') = 1) :
+    sampleLossCplx am ph dict smp = -Real.log (bornPsi (usOf dict smp) (psiOf am ph) smp.σ)
+    ∧ (toC (cplxUpsi am ph dict smp) ≠ 0 →
+        Real.exp (-(sampleLossCplx am ph dict smp)) = bornPsi (usOf dict smp) (psiOf am ph) smp.σ) := by
+  have h1 : sampleLossCplx am ph dict smp = -Real.log (bornPsi (usOf dict smp) (psiOf am ph) smp.σ) := by
+    unfold sampleLossCplx bornPsi
+    rw [C03_upsi_is_dense_amplitude am ph dict smp hZ]
+  refine ⟨h1, fun hU => ?_⟩
+  rw [h1, neg_neg, Real.exp_log]
+  unfold bornPsi
+  rw [← C03_upsi_is_dense_amplitude am ph dict smp hZ]
+  exact Complex.normSq_pos.mpr hU
+
+/-- a unitary operator preserves the squared norm (generic form of `C04_psi_probs_sum`) -/
+theorem sum_normSq_mulVec {ι : Type*} [Fintype ι] [DecidableEq ι] (K : Matrix ι ι ℂ) (hK : Kᴴ * K = 1) (v : ι → ℂ) :
+    ∑ σ, Complex.normSq (K.mulVec v σ) = ∑ σ, Complex.normSq (v σ) := by
+  have : star (K.mulVec v) ⬝ᵥ (K.mulVec v) = star v ⬝ᵥ v := by
+    rw [Matrix.star_mulVec, Matrix.dotProduct_mulVec, Matrix.vecMul_vecMul, hK, Matrix.vecMul_one]
+  have conv : ∀ w : ι → ℂ, ((star w ⬝ᵥ w : ℂ)).re = ∑ σ, Complex.normSq (w σ) := by
+    intro w
+    simp only [dotProduct, Pi.star_apply, Complex.re_sum]
+    refine Finset.sum_congr rfl (fun σ _ => ?_)
+    simp [Complex.normSq_apply, Complex.mul_re]
+  rw [← conv, ← conv, this]
+
+/-- **C03.4d** `Z_λ` (the `log Z` term of the NLL) is the squared norm of `ψ` … -/
+theorem C03_Zsum_is_norm (am ph : RBM ℝ n h) : Zsum am = ∑ τ, Complex.normSq (psiOf am ph τ) := by
+  unfold Zsum
+  rw [← sum_rows n (fun τ => Complex.normSq (psiOf am ph τ))]
+  refine Finset.sum_congr rfl (fun k _ => ?_)
+  have := C01_normSq_psi_complex am ph (visOf (rowBits n k.val))
+  simp only [Wave.probability, transc_exp, div_one] at this
+  rw [psiOf, Complex.normSq_apply, toC_re, toC_im, ← sq, ← sq, this]
+  rfl
+
+/-- **C03.4e** … which is also the total Born probability in EVERY basis whose per-site matrices are unitary: the
+quantity under the logarithm of the NLL, divided by `Z_λ`, is a probability distribution over outcomes. -/
+theorem C03_born_complex_normalised (am ph : RBM ℝ n h) (us : Fin n → M2 ℝ)
+    (hU : ∀ j, (m2c (us j))ᴴ * m2c (us j) = 1) :
+    ∑ σ, bornPsi us (psiOf am ph) σ = Zsum am
+    ∧ ∑ σ, bornPsi us (psiOf am ph) σ / Zsum am = 1 := by
+  have h1 : ∑ σ, bornPsi us (psiOf am ph) σ = Zsum am := by
+    rw [C03_Zsum_is_norm am ph]
+    exact sum_normSq_mulVec _ (C04_dense_unitary us hU) _
+  refine ⟨h1, ?_⟩
+  rw [← Finset.sum_div, h1, div_self (Zsum_pos am).ne']
+
+theorem list_sum_map_add_const {ι : Type} (l : List ι) (f : ι → ℝ) (c : ℝ) :
+    (l.map (fun x => f x + c)).sum = (l.map f).sum + l.length * c := by
+  induction l with
+  | nil => simp
+  | cons x xs ih => simp only [List.map_cons, List.sum_cons, ih, List.length_cons]; push_cast; ring
+
+/-- **C03.4 (complex state)** the dataset loss differentiated in `C03_exact_gradient_complex` IS the negative
+log-likelihood under the Born rule: the mean over the dataset of `−log( |(K_{β_s} ψ)_{σ_s}|² / ‖ψ‖² )`, `K_β` the dense
+Kronecker product of the dictionary matrices of the sample's own basis string. -/
+theorem C03_nll_is_born_complex (am ph : RBM ℝ n h) (dict : Char → M2 ℝ) (hZ : m2c (dict 'Z') = 1)
+    (D : List (Sample n)) (hD : D ≠ []) (hU : ∀ smp ∈ D, toC (cplxUpsi am ph dict smp) ≠ 0) :
+    nllCplx am ph dict D
+      = (D.map (fun smp => -Real.log (bornPsi (usOf dict smp) (psiOf am ph) smp.σ
+            / ∑ τ, Complex.normSq (psiOf am ph τ)))).sum / D.length := by
+  have hN : (D.length : ℝ) ≠ 0 := by
+    have : D.length ≠ 0 := by simpa using hD
+    exact_mod_cast this
+  have key : ∀ smp ∈ D, -Real.log (bornPsi (usOf dict smp) (psiOf am ph) smp.σ / ∑ τ, Complex.normSq (psiOf am ph τ))
+      = sampleLossCplx am ph dict smp + Real.log (Zsum am) := by
+    intro smp hs
+    have hp : bornPsi (usOf dict smp) (psiOf am ph) smp.σ ≠ 0 := by
+      unfold bornPsi
+      rw [← C03_upsi_is_dense_amplitude am ph dict smp hZ]
+      exact (Complex.normSq_pos.mpr (hU smp hs)).ne'
+    rw [← C03_Zsum_is_norm, Real.log_div hp (Zsum_pos am).ne', (C03_loss_is_born_complex am ph dict smp hZ).1]
+    ring
+  unfold nllCplx
+  rw [List.map_congr_left key, list_sum_map_add_const]
+  field_simp
+
+/-! ### mixed state -/
+
+open scoped ComplexOrder
+
+/-- SPEC (Born rule, mixed state): unnormalised probability of outcome `σ` in the basis with per-site unitaries `us`:
+the real part of the diagonal entry of `K ρ Kᴴ`, `K` the DENSE tensor-product operator of C04. -/
+noncomputable def bornRho (us : Fin n → M2 ℝ) (ρ : Matrix (Fin n → Bool) (Fin n → Bool) ℂ) (σ : Fin n → Bool) : ℝ :=
+  ((denseK us * ρ * (denseK us)ᴴ) σ σ).re
+
+/-- the model's density matrix over bit-strings as a complex matrix (the matrix of `C02_posSemidef`, `C02_hermitian`) -/
+theorem rhoMat_eq_of (am ph : PRBM ℝ n h a) :
+    C02.rhoMat am ph = Matrix.of fun σ τ => toC (Density.rho am ph (visOf σ) (visOf τ)) := rfl
+
+/-- **C03.4f** `UrhoU` of `DensityMatrix.rotated_gradient` is the model of `rotate_rho_probs` (C04) applied to the
+model's `rho` in the sample's basis … -/
+theorem C03_urhou_is_rotated_prob (am ph : PRBM ℝ n h a) (dict : Char → M2 ℝ) (smp : Sample n) :
+    dmUrhoU am ph dict smp
+      = rotateRhoProbs n (usOf dict smp) smp.rot (fun τ τ' => Density.rho am ph (visOf τ) (visOf τ')) smp.σ := by
+  unfold dmUrhoU rotateRhoProbs dmCoef
+  congr 1; funext k; congr 1; funext l
+  by_cases hc : (agreesOff n smp.rot smp.σ (fun j => spaceBit n k.val j)
+      && agreesOff n smp.rot smp.σ (fun j => spaceBit n l.val j)) = true
+  · simp only [hc, if_true]; rfl
+  · simp only [hc, Bool.false_eq_true, if_false]; rfl
+
+/-- … also in the as-coded form (double enumeration of the expanded states, what the C04 driver executes) … -/
+theorem C03_urhou_as_coded (am ph : PRBM ℝ n h a) (dict : Char → M2 ℝ) (smp : Sample n) :
+    dmUrhoU am ph dict smp
+      = rotateRhoProbsE n (usOf dict smp) smp.rot (fun τ τ' => Density.rho am ph (visOf τ) (visOf τ')) smp.σ := by
+  rw [rotateRhoProbsE_eq, C03_urhou_is_rotated_prob]
+
+/-- **C03.4g** … hence the Born probability `Re (K ρ Kᴴ)_{σσ}` of the dense Kronecker rotation (`C04_rho_probs_dense`). -/
+theorem C03_urhou_is_born (am ph : PRBM ℝ n h a) (dict : Char → M2 ℝ) (smp : Sample n) (hZ : m2c (dict 'Z') = 1) :
+    dmUrhoU am ph dict smp = bornRho (usOf dict smp) (C02.rhoMat am ph) smp.σ := by
+  rw [C03_urhou_is_rotated_prob, C04_rho_probs_dense (usOf dict smp) smp.rot _ smp.σ (hZ_of_dictZ dict smp hZ)]
+  rfl
+
+theorem fastK_no_rot (us : Fin n → M2 ℝ) (rot : Fin n → Bool) (hrot : ∀ j, rot j = false) : fastK us rot = 1 := by
+  funext σ τ
+  unfold fastK
+  simp only [hrot, Bool.false_eq_true, if_false, Matrix.one_apply]
+  by_cases hστ : σ = τ
+  · subst hστ; simp
+  · rw [if_neg hστ]
+    obtain ⟨j, hj⟩ := Function.ne_iff.mp hστ
+    exact Finset.prod_eq_zero (mem_univ j) (by simp [hj])
+
+theorem allZ_rot {smp : Sample n} (hz : smp.allZ = true) : ∀ j, smp.rot j = false := by
+  intro j
+  have := List.all_eq_true.mp hz j (List.mem_finRange j)
+  simpa using this
+
+/-- **C03.4h (consistency of the piecewise loss)** on a reference-basis row the rotated probability is the diagonal element
+`ρ(σ,σ) = exp(−E_λ(σ))`: the fast-path loss `E_λ(σ)` of `sampleLossDM` is `−log UrhoU` (no regulariser), i.e. the same
+Born-rule loss as on the rotated rows with `ε = 0`. -/
+theorem C03_loss_allZ_density (am ph : PRBM ℝ n h a) (dict : Char → M2 ℝ) (smp : Sample n) (hz : smp.allZ = true) :
+    dmUrhoU am ph dict smp = Real.exp (-(am.effEnergy smp.vis))
+    ∧ am.effEnergy smp.vis = -Real.log (dmUrhoU am ph dict smp) := by
+  have h1 : dmUrhoU am ph dict smp = Real.exp (-(am.effEnergy smp.vis)) := by
+    rw [C03_urhou_is_rotated_prob, C04_rho_probs, fastK_no_rot _ _ (allZ_rot hz)]
+    simp only [Matrix.conjTranspose_one, Matrix.mul_one, Matrix.one_mul, Matrix.of_apply, toC_re]
+    rw [(C02.C02_diagonal am ph _).1]
+    rfl
+  exact ⟨h1, by rw [h1, Real.log_exp, neg_neg]⟩
+
+/-- **C03.4i** the per-sample loss of `C03_sample_gradient_density` is `−log(Born probability + ε·[row is rotated])`. -/
+theorem C03_loss_is_born_density (am ph : PRBM ℝ n h a) (dict : Char → M2 ℝ) (eps : ℝ) (smp : Sample n)
+    (hZ : m2c (dict 'Z') = 1) :
+    sampleLossDM am ph dict eps smp
+      = -Real.log (bornRho (usOf dict smp) (C02.rhoMat am ph) smp.σ + (if smp.allZ then 0 else eps)) := by
+  unfold sampleLossDM
+  rw [← C03_urhou_is_born am ph dict smp hZ]
+  by_cases hz : smp.allZ = true
+  · simp only [hz, if_true, add_zero]
+    exact (C03_loss_allZ_density am ph dict smp hz).2
+  · simp only [hz, Bool.false_eq_true, if_false]
+
+/-- `NZall` (guard of the gradient theorems) is the C02 guard for every pair of basis states -/
+theorem NZall_iff (am ph : PRBM ℝ n h a) :
+    NZall am ph ↔ ∀ σ τ : Fin n → Bool, C02.NZ am ph (C02.bits σ) (C02.bits τ) := Iff.rfl
+
+/-- **C03.4j** under the auxiliary-trace guard the rotated probability is non-negative in every basis (ρ is positive
+semidefinite, `C02_posSemidef`), so with the code's `ε > 0` the regularised probability is strictly positive … -/
+theorem C03_urhou_nonneg (am ph : PRBM ℝ n h a) (dict : Char → M2 ℝ) (smp : Sample n) (hz : NZall am ph) :
+    0 ≤ dmUrhoU am ph dict smp := by
+  rw [C03_urhou_is_rotated_prob, C04_rho_probs]
+  have hρ : (C02.rhoMat am ph).PosSemidef := by
+    rw [C02.rhoMat_eq_mul_conjTranspose am ph ((NZall_iff am ph).mp hz)]
+    exact Matrix.posSemidef_self_mul_conjTranspose _
+  exact C04_rho_probs_nonneg (fastK (usOf dict smp) smp.rot) (C02.rhoMat am ph) hρ smp.σ
+
+/-- **C03.3 (mixed state, ε > 0)** … hence `compute_exact_gradients` of the DensityMatrix is the gradient of the
+ε-regularised dataset NLL for EVERY dataset and every assignment of bases, under the auxiliary-trace guard alone. -/
+theorem C03_exact_gradient_density_eps_pos (ram rph : ℝ → PRBM ℝ n h a) (dam dph : PRBM ℝ n h a) (t : ℝ)
+    (ha : PRBM.CurveAt ram dam t) (hp : PRBM.CurveAt rph dph t) (dict : Char → M2 ℝ) (eps : ℝ) (heps : 0 < eps)
+    (D : List (Sample n)) (hz : NZall (ram t) (rph t)) :
+    HasDerivAt (fun s => nllDM (ram s) (rph s) dict eps D)
+      ((exactGradientsDM (ram t) (rph t) dict eps D).1.pair dam
+        + (exactGradientsDM (ram t) (rph t) dict eps D).2.pair dph) t :=
+  C03_exact_gradient_density ram rph dam dph t ha hp dict eps D hz
+    (fun smp _ => (add_pos_of_nonneg_of_pos (C03_urhou_nonneg _ _ dict smp hz) heps).ne')
+
+/-- **C03.4k** `Z_λ` of the mixed state is the trace of `ρ`, which is the total Born probability in every basis whose
+per-site matrices are unitary (`C04_rho_probs_sum`, `C02_diagonal`). -/
+theorem C03_born_density_normalised (am ph : PRBM ℝ n h a) (us : Fin n → M2 ℝ)
+    (hU : ∀ j, (m2c (us j))ᴴ * m2c (us j) = 1) :
+    ((C02.rhoMat am ph).trace).re = ZsumDM am
+    ∧ ∑ σ, bornRho us (C02.rhoMat am ph) σ = ZsumDM am := by
+  have htr : ((C02.rhoMat am ph).trace).re = ZsumDM am := by
+    unfold ZsumDM
+    rw [show (∑ k : Fin (2 ^ n), Real.exp (-(am.effEnergy (spaceRow n k.val))))
+        = ∑ τ : Fin n → Bool, Real.exp (-(am.effEnergy (visOf τ))) from
+          sum_rows n (fun τ => Real.exp (-(am.effEnergy (visOf τ)))), Matrix.trace, Complex.re_sum]
+    refine Finset.sum_congr rfl (fun σ _ => ?_)
+    simp only [Matrix.diag_apply, C02.rhoMat, C02.rhoC]
+    rw [(C02.C02_diagonal am ph _).1]
+    rfl
+  refine ⟨htr, ?_⟩
+  have := C04_rho_probs_sum (denseK us) (C02.rhoMat am ph) (C04_dense_unitary us hU)
+  rw [← htr, ← this, Complex.re_sum]
+  rfl
+
+/-- **C03.4 (mixed state)** the dataset loss differentiated in `C03_exact_gradient_density` IS the negative log-likelihood
+under the Born rule up to the library's regularisation: the mean over the dataset of
+`−log( (Re (K_{β_s} ρ K_{β_s}ᴴ)_{σ_s σ_s} + ε·[β_s ≠ Z…Z]) / tr ρ )`. -/
+theorem C03_nll_is_born_density (am ph : PRBM ℝ n h a) (dict : Char → M2 ℝ) (hZ : m2c (dict 'Z') = 1)
+    (eps : ℝ) (heps : 0 < eps) (D : List (Sample n)) (hD : D ≠ []) (hz : NZall am ph) :
+    nllDM am ph dict eps D
+      = (D.map (fun smp => -Real.log ((bornRho (usOf dict smp) (C02.rhoMat am ph) smp.σ + (if smp.allZ then 0 else eps))
+            / ((C02.rhoMat am ph).trace).re))).sum / D.length := by
+  have hN : (D.length : ℝ) ≠ 0 := by
+    have : D.length ≠ 0 := by simpa using hD
+    exact_mod_cast this
+  have hid : ∀ j : Fin n, (m2c (dZ : M2 ℝ))ᴴ * m2c dZ = 1 := fun _ => by rw [C04_dZ]; simp
+  have htr := (C03_born_density_normalised am ph (fun _ : Fin n => dZ) hid).1
+  have key : ∀ smp ∈ D,
+      -Real.log ((bornRho (usOf dict smp) (C02.rhoMat am ph) smp.σ + (if smp.allZ then 0 else eps))
+            / ((C02.rhoMat am ph).trace).re)
+      = sampleLossDM am ph dict eps smp + Real.log (ZsumDM am) := by
+    intro smp _
+    have hp : bornRho (usOf dict smp) (C02.rhoMat am ph) smp.σ + (if smp.allZ then 0 else eps) ≠ 0 := by
+      rw [← C03_urhou_is_born am ph dict smp hZ]
+      by_cases hzz : smp.allZ = true
+      · simp only [hzz, if_true, add_zero, (C03_loss_allZ_density am ph dict smp hzz).1]
+        exact (Real.exp_pos _).ne'
+      · simp only [hzz, Bool.false_eq_true, if_false]
+        exact (add_pos_of_nonneg_of_pos (C03_urhou_nonneg am ph dict smp hz) heps).ne'
+    rw [htr, Real.log_div hp (ZsumDM_pos am).ne', C03_loss_is_born_density am ph dict eps smp hZ]
+    ring
+  unfold nllDM
+  rw [List.map_congr_left key, list_sum_map_add_const]
+  field_simp
+
+/-- **C03.5 (mixed)** permutation invariance of the positive phase (any reordering / regrouping of the batch). -/
+theorem C03_perm_invariant_density (am ph d : PRBM ℝ n h a) (dict : Char → M2 ℝ) (eps : ℝ) (D D' : List (Sample n))
+    (hperm : D.Perm D') :
+    (positivePhaseDM am ph dict eps D).1.pair d = (positivePhaseDM am ph dict eps D').1.pair d
+    ∧ (positivePhaseDM am ph dict eps D).2.pair d = (positivePhaseDM am ph dict eps D').2.pair d := by
+  rw [(C03_batch_is_sum_density am ph d dict eps D).1, (C03_batch_is_sum_density am ph d dict eps D).2,
+    (C03_batch_is_sum_density am ph d dict eps D').1, (C03_batch_is_sum_density am ph d dict eps D').2, hperm.length_eq]
+  exact ⟨by rw [(hperm.map _).sum_eq], by rw [(hperm.map _).sum_eq]⟩
+
+/-! ### C03-5: layout — the pairing is the dot product of the flattened records in `parameters()` order -/
+
+/-- dot product of two flat vectors (lists) -/
+def dotList (l m : List ℝ) : ℝ := (List.zipWith (· * ·) l m).sum
+
+theorem dotList_append (l1 l2 m1 m2 : List ℝ) (hl : l1.length = m1.length) :
+    dotList (l1 ++ l2) (m1 ++ m2) = dotList l1 m1 + dotList l2 m2 := by
+  unfold dotList
+  rw [List.zipWith_append hl, List.sum_append]
+
+theorem dotList_map_finRange (m : ℕ) (f g : Fin m → ℝ) :
+    dotList ((List.finRange m).map f) ((List.finRange m).map g) = ∑ j, f j * g j := by
+  unfold dotList
+  rw [List.zipWith_map, List.zipWith_self, Fin.sum_univ_def]
+
+theorem dotList_rows (r c : ℕ) (x y : Fin r → Fin c → ℝ) :
+    dotList ((List.finRange r).flatMap (fun i => (List.finRange c).map (fun j => x i j)))
+        ((List.finRange r).flatMap (fun i => (List.finRange c).map (fun j => y i j)))
+      = ∑ i, ∑ j, x i j * y i j := by
+  induction r with
+  | zero => simp [dotList]
+  | succ k ih =>
+    rw [List.finRange_succ, List.flatMap_cons, List.flatMap_cons, List.flatMap_map, List.flatMap_map,
+      dotList_append _ _ _ _ (by simp), dotList_map_finRange, Fin.sum_univ_succ]
+    congr 1
+    exact ih (fun i j => x i.succ j) (fun i j => y i.succ j)
+
+/-- **C03.4 (layout, BinaryRBM)** the pairing used by all gradient theorems is the dot product of the FLATTENED gradient with
+the FLATTENED velocity, both in the order `[W row-major, b, c]` of `parameters()` (the order the harness compares with
+`parameters_to_vector`, and the order `vector_to_grads` slices, `C06_lands_on_parameter`); the flat vector has
+`h·n + n + h` entries. So entry `k` of the flat gradient multiplies the velocity of flat parameter `k`. -/
+theorem C03_layout (g d : RBM ℝ n h) :
+    g.pair d = dotList g.flatten d.flatten ∧ g.flatten.length = h * n + n + h := by
+  constructor
+  · unfold RBM.pair RBM.flatten
+    rw [dotList_append _ _ _ _ (by simp), dotList_append _ _ _ _ (by simp),
+      dotList_rows, dotList_map_finRange, dotList_map_finRange]
+  · simp [RBM.flatten]; ring
+
+/-- **C03.4 (layout, PurificationRBM)** the same in the order `[W, U, b, c, d]`. -/
+theorem C03_layout_prbm (g d : PRBM ℝ n h a) :
+    g.pair d = dotList g.flatten d.flatten ∧ g.flatten.length = h * n + a * n + n + h + a := by
+  constructor
+  · unfold PRBM.pair PRBM.flatten
+    rw [dotList_append _ _ _ _ (by simp), dotList_append _ _ _ _ (by simp),
+      dotList_append _ _ _ _ (by simp), dotList_append _ _ _ _ (by simp),
+      dotList_rows, dotList_rows, dotList_map_finRange, dotList_map_finRange, dotList_map_finRange]
+  · simp [PRBM.flatten]; ring
+
+/-- **C03.3 (flat form)** `compute_exact_gradients` in the flat `parameters()` layout is the gradient of the NLL with respect
+to the flat parameter vector: the derivative along any curve is `⟨flatten G, flatten θ'⟩`. Positive state … -/
+theorem C03_exact_gradient_positive_flat (r : ℝ → RBM ℝ n h) (dr : RBM ℝ n h) (t : ℝ) (hr : RBM.CurveAt r dr t)
+    {B : ℕ} (hB : 0 < B) (vs : Fin B → Fin n → ℝ) :
+    HasDerivAt (fun s => nllPos (r s) vs) (dotList (exactGradientsPos (r t) vs).flatten dr.flatten) t := by
+  rw [← (C03_layout _ _).1]
+  exact C03_exact_gradient_positive r dr t hr hB vs
+
+/-- … complex state (two networks, `[amplitude, phase]`) … -/
+theorem C03_exact_gradient_complex_flat (ram rph : ℝ → RBM ℝ n h) (dam dph : RBM ℝ n h) (t : ℝ)
+    (ha : RBM.CurveAt ram dam t) (hp : RBM.CurveAt rph dph t) (dict : Char → M2 ℝ) (D : List (Sample n))
+    (hU : ∀ smp ∈ D, toC (cplxUpsi (ram t) (rph t) dict smp) ≠ 0) :
+    HasDerivAt (fun s => nllCplx (ram s) (rph s) dict D)
+      (dotList (exactGradientsCplx (ram t) (rph t) dict D).1.flatten dam.flatten
+        + dotList (exactGradientsCplx (ram t) (rph t) dict D).2.flatten dph.flatten) t := by
+  rw [← (C03_layout _ _).1, ← (C03_layout _ _).1]
+  exact C03_exact_gradient_complex ram rph dam dph t ha hp dict D hU
+
+/-- … mixed state. -/
+theorem C03_exact_gradient_density_flat (ram rph : ℝ → PRBM ℝ n h a) (dam dph : PRBM ℝ n h a) (t : ℝ)
+    (ha : PRBM.CurveAt ram dam t) (hp : PRBM.CurveAt rph dph t) (dict : Char → M2 ℝ) (eps : ℝ) (heps : 0 < eps)
+    (D : List (Sample n)) (hz : NZall (ram t) (rph t)) :
+    HasDerivAt (fun s => nllDM (ram s) (rph s) dict eps D)
+      (dotList (exactGradientsDM (ram t) (rph t) dict eps D).1.flatten dam.flatten
+        + dotList (exactGradientsDM (ram t) (rph t) dict eps D).2.flatten dph.flatten) t := by
+  rw [← (C03_layout_prbm _ _).1, ← (C03_layout_prbm _ _).1]
+  exact C03_exact_gradient_density_eps_pos ram rph dam dph t ha hp dict eps heps D hz
+
+/-! ### C03-5: a single sample (the 1-D call form unsqueezes to a batch of one) -/
+
+/-- **C03.6** `gradient` of a batch of ONE row (what the 1-D call form computes after `unsqueeze(0)`) is the per-sample
+gradient, and so is its positive phase (`/ 1`), for the complex and the mixed state (pairing form). -/
+theorem C03_single_sample (am ph d : RBM ℝ n h) (dict : Char → M2 ℝ) (s : Sample n) :
+    (gradientCplx am ph dict [s]).1.pair d = (cplxGrad1 am ph dict s).1.pair d
+    ∧ (gradientCplx am ph dict [s]).2.pair d = (cplxGrad1 am ph dict s).2.pair d
+    ∧ (positivePhaseCplx am ph dict [s]).1.pair d = (cplxGrad1 am ph dict s).1.pair d
+    ∧ (positivePhaseCplx am ph dict [s]).2.pair d = (cplxGrad1 am ph dict s).2.pair d := by
+  have h1 := pair_gradientCplx am ph d dict [s]
+  have h2 := C03_batch_is_sum_complex am ph d dict [s]
+  simp only [List.map_cons, List.map_nil, List.sum_cons, List.sum_nil, add_zero, List.length_singleton, Nat.cast_one,
+    div_one] at h1 h2
+  exact ⟨h1.1, h1.2, h2.1, h2.2⟩
+
+theorem C03_single_sample_density (am ph d : PRBM ℝ n h a) (dict : Char → M2 ℝ) (eps : ℝ) (s : Sample n) :
+    (gradientDM am ph dict eps [s]).1.pair d = (dmGrad1 am ph dict eps s).1.pair d
+    ∧ (gradientDM am ph dict eps [s]).2.pair d = (dmGrad1 am ph dict eps s).2.pair d
+    ∧ (positivePhaseDM am ph dict eps [s]).1.pair d = (dmGrad1 am ph dict eps s).1.pair d
+    ∧ (positivePhaseDM am ph dict eps [s]).2.pair d = (dmGrad1 am ph dict eps s).2.pair d := by
+  have h1 := pair_gradientDM am ph d dict eps [s]
+  have h2 := C03_batch_is_sum_density am ph d dict eps [s]
+  simp only [List.map_cons, List.map_nil, List.sum_cons, List.sum_nil, add_zero, List.length_singleton, Nat.cast_one,
+    div_one] at h1 h2
+  exact ⟨h1.1, h1.2, h2.1, h2.2⟩
+
+theorem cplxGrad1_allZ (am ph : RBM ℝ n h) (dict : Char → M2 ℝ) (s : Sample n) (hz : s.allZ = true) :
+    cplxGrad1 am ph dict s = (am.effEnergyGrad1 s.vis, RBM.zero) := by
+  simp [cplxGrad1, hz]
+
+theorem dmGrad1_allZ (am ph : PRBM ℝ n h a) (dict : Char → M2 ℝ) (eps : ℝ) (s : Sample n) (hz : s.allZ = true) :
+    dmGrad1 am ph dict eps s = (am.effEnergyGrad1 s.vis, PRBM.zero) := by
+  simp [dmGrad1, hz]
+
+/-- **C03.7** `gradient(samples, bases=None)` — computed by the code as `[effective_energy_gradient(samples), zeros]`, the model
+`gradientPos` of the amplitude network — is what the grouped per-basis accumulation `gradient(samples, bases)` returns
+when every row is a reference-basis row (whatever the strings look like, as long as every letter is `Z`): the amplitude
+part is the batch energy gradient (no row lost or double-counted by the grouping), the phase part is zero. -/
+theorem C03_bases_none (am ph d : RBM ℝ n h) (dict : Char → M2 ℝ) {B : ℕ} (σs : Fin B → Fin n → Bool)
+    (bs : Fin B → List Char) (hz : ∀ b, (⟨σs b, bs b⟩ : Sample n).allZ = true) :
+    (gradientCplx am ph dict ((List.finRange B).map (fun b => (⟨σs b, bs b⟩ : Sample n)))).1.pair d
+        = (gradientPos am (fun b => visOf (σs b))).pair d
+    ∧ (gradientCplx am ph dict ((List.finRange B).map (fun b => (⟨σs b, bs b⟩ : Sample n)))).2.pair d = 0 := by
+  have h := pair_gradientCplx am ph d dict ((List.finRange B).map (fun b => (⟨σs b, bs b⟩ : Sample n)))
+  rw [h.1, h.2, List.map_map, List.map_map]
+  constructor
+  · rw [gradientPos, RBM.pair_effEnergyGrad, Fin.sum_univ_def]
+    congr 1
+    refine List.map_congr_left (fun b _ => ?_)
+    simp only [Function.comp, cplxGrad1_allZ am ph dict _ (hz b)]
+    rfl
+  · rw [← Fin.sum_univ_def]
+    refine Finset.sum_eq_zero (fun b _ => ?_)
+    simp only [Function.comp, cplxGrad1_allZ am ph dict _ (hz b), RBM.pair_zero]
+
+theorem C03_bases_none_density (am ph d : PRBM ℝ n h a) (dict : Char → M2 ℝ) (eps : ℝ) {B : ℕ} (σs : Fin B → Fin n → Bool)
+    (bs : Fin B → List Char) (hz : ∀ b, (⟨σs b, bs b⟩ : Sample n).allZ = true) :
+    (gradientDM am ph dict eps ((List.finRange B).map (fun b => (⟨σs b, bs b⟩ : Sample n)))).1.pair d
+        = (am.effEnergyGrad (fun b => visOf (σs b))).pair d
+    ∧ (gradientDM am ph dict eps ((List.finRange B).map (fun b => (⟨σs b, bs b⟩ : Sample n)))).2.pair d = 0 := by
+  have h := pair_gradientDM am ph d dict eps ((List.finRange B).map (fun b => (⟨σs b, bs b⟩ : Sample n)))
+  rw [h.1, h.2, List.map_map, List.map_map]
+  constructor
+  · rw [PRBM.pair_effEnergyGrad, Fin.sum_univ_def]
+    congr 1
+    refine List.map_congr_left (fun b _ => ?_)
+    simp only [Function.comp, dmGrad1_allZ am ph dict eps _ (hz b)]
+    rfl
+  · rw [← Fin.sum_univ_def]
+    refine Finset.sum_eq_zero (fun b _ => ?_)
+    simp only [Function.comp, dmGrad1_allZ am ph dict eps _ (hz b), PRBM.pair_zero]
+
+/-! ### C03-3: the `expand=False` (default) branch of `pi_grad` -/
+
+theorem mixingTerm_add_eq (am : PRBM ℝ n h a) (v vp : Fin n → ℝ) (k : Fin a) :
+    am.mixingTerm (fun j => v j + vp j) k = Density.piArgRe am v vp k := by
+  simp only [PRBM.mixingTerm, Density.piArgRe, PRBM.preactA, sumFin_eq, two_eq]
+  have : ∑ j, (v j + vp j) * (1 / 2 * am.U k j) = (∑ j, v j * am.U k j + ∑ j, vp j * am.U k j) / 2 := by
+    rw [← Finset.sum_add_distrib, Finset.sum_div]
+    exact Finset.sum_congr rfl (fun j _ => by ring)
+  rw [this]; ring
+
+theorem mixingTerm_sub_eq (ph : PRBM ℝ n h a) (v vp : Fin n → ℝ) (k : Fin a) :
+    ph.mixingTerm (fun j => v j - vp j) k = Density.piArgIm ph v vp k + ph.d k := by
+  simp only [PRBM.mixingTerm, Density.piArgIm, sumFin_eq, two_eq]
+  have : ∑ j, (v j - vp j) * (1 / 2 * ph.U k j) = (∑ j, v j * ph.U k j - ∑ j, vp j * ph.U k j) / 2 := by
+    rw [← Finset.sum_sub_distrib, Finset.sum_div]
+    exact Finset.sum_congr rfl (fun j _ => by ring)
+  rw [this]
+
+/-- **C03.8 (scope of `pi_grad`)** the `expand=False` branch of `pi_grad` (never used by training) evaluates the complex
+sigmoid at `y_k + d_μ,k` instead of `y_k`; it therefore coincides with the `expand=True` branch — the one `am_grads` /
+`ph_grads` use and whose output is proved to be the gradient of `ρ` (`hasDerivAt_toC_rho`) — exactly when … the phase
+network's auxiliary bias vanishes, which training maintains (`C20`: the phase aux bias receives a zero gradient). -/
+theorem C03_pi_grad_branches_agree (am ph : PRBM ℝ n h a) (phase : Bool) (v vp : Fin n → ℝ) (hd : ∀ k, ph.d k = 0) :
+    piGradNoExpand am ph phase v vp = piGrad am ph phase v vp := by
+  unfold piGradNoExpand piGrad
+  simp only [mixingTerm_add_eq, mixingTerm_sub_eq, hd, add_zero]
+
+/-- … and differs otherwise: one auxiliary unit, all weights 0, `d_μ = π/2`: the imaginary part of the aux-bias entry is
+`1/2` on the default branch and `0` on the `expand=True` branch (and `pi`, `rho` do not depend on `d_μ` at all,
+`C02_rho_indep_phase_aux_bias`, so the default branch is NOT the gradient of `pi` there). -/
+theorem C03_pi_grad_branches_differ :
+    let am : PRBM ℝ 1 1 1 := ⟨fun _ _ => 0, fun _ _ => 0, fun _ => 0, fun _ => 0, fun _ => 0⟩
+    let ph : PRBM ℝ 1 1 1 := ⟨fun _ _ => 0, fun _ _ => 0, fun _ => 0, fun _ => 0, fun _ => Real.pi / 2⟩
+    (piGradNoExpand am ph false (fun _ => 0) (fun _ => 0)).2.d 0 = 1 / 2
+    ∧ (piGrad am ph false (fun _ => 0) (fun _ => 0)).2.d 0 = 0 := by
+  intro am ph
+  constructor
+  · simp only [piGradNoExpand, Bool.false_eq_true, if_false, mixingTerm_add_eq, mixingTerm_sub_eq]
+    simp [am, ph, csigmoid, Density.piArgRe, Density.piArgIm, PRBM.preactA, sumFin_eq, C.div, C.mul, C.conj, C.add,
+      C.one, C.normSq]
+    norm_num
+  · simp [piGrad, am, ph, csigmoid, Density.piArgRe, Density.piArgIm, PRBM.preactA, sumFin_eq, C.div, C.mul, C.conj,
+      C.add, C.one, C.normSq]
+
+/-! ### non-vacuity of the hypotheses used above -/
+
+/-- the default dictionary `create_dict()` as a function on letters -/
+noncomputable def defaultDict : Char → M2 ℝ := fun c => if c = 'X' then dX else if c = 'Y' then dY else dZ
+
+/-- the default dictionary satisfies both hypotheses of the Born-rule theorems for EVERY sample: `Z ↦ 1` and every per-site
+matrix of every basis string is unitary (`C04_dX_unitary`, `C04_dY_unitary`, `C04_dZ`). -/
+theorem C03_default_dictionary_ok :
+    m2c (defaultDict 'Z') = 1
+    ∧ ∀ (smp : Sample n) (j : Fin n), (m2c (usOf defaultDict smp j))ᴴ * m2c (usOf defaultDict smp j) = 1 := by
+  refine ⟨by simp [defaultDict, C04_dZ], fun smp j => ?_⟩
+  unfold usOf defaultDict
+  split_ifs
+  · exact C04_dX_unitary
+  · exact C04_dY_unitary
+  · rw [C04_dZ]; simp
+
+/-- the guard `NZall` holds e.g. whenever the phase network's auxiliary couplings are small (`C02_NZ_of_phase_weights_small`),
+in particular at `U_μ = 0`, for arbitrary other parameters -/
+example (am ph : PRBM ℝ n h a) (hU : ∀ k, ∑ j, |ph.U k j| < 2 * Real.pi) : NZall am ph :=
+  (NZall_iff am ph).mpr (C02.C02_NZ_of_phase_weights_small am ph hU)
 
 end QV.Props
